@@ -503,48 +503,56 @@ package autodiff
 //@   requires okF_$S(c) && RIc(a)
 //@   ensures deref(c.ptr) == ((0 - 1) * old(val(a)))
 //@   ensures isa($S, result) && as($S, result) == c
+//@   ensures forall k int :: k != off(c.ptr) ==> row($F, base(c.ptr))[k] == old(row($F, base(c.ptr))[k])
 //@   modifies []$F@{c.ptr}
 
 //@ func ($S).Sin
 //@   requires okF_$S(c) && RIc(a)
 //@   ensures deref(c.ptr) == sin(old(val(a)))
 //@   ensures isa($S, result) && as($S, result) == c
+//@   ensures forall k int :: k != off(c.ptr) ==> row($F, base(c.ptr))[k] == old(row($F, base(c.ptr))[k])
 //@   modifies []$F@{c.ptr}
 
 //@ func ($S).Sinh
 //@   requires okF_$S(c) && RIc(a)
 //@   ensures deref(c.ptr) == sinh(old(val(a)))
 //@   ensures isa($S, result) && as($S, result) == c
+//@   ensures forall k int :: k != off(c.ptr) ==> row($F, base(c.ptr))[k] == old(row($F, base(c.ptr))[k])
 //@   modifies []$F@{c.ptr}
 
 //@ func ($S).Cos
 //@   requires okF_$S(c) && RIc(a)
 //@   ensures deref(c.ptr) == cos(old(val(a)))
 //@   ensures isa($S, result) && as($S, result) == c
+//@   ensures forall k int :: k != off(c.ptr) ==> row($F, base(c.ptr))[k] == old(row($F, base(c.ptr))[k])
 //@   modifies []$F@{c.ptr}
 
 //@ func ($S).Cosh
 //@   requires okF_$S(c) && RIc(a)
 //@   ensures deref(c.ptr) == cosh(old(val(a)))
 //@   ensures isa($S, result) && as($S, result) == c
+//@   ensures forall k int :: k != off(c.ptr) ==> row($F, base(c.ptr))[k] == old(row($F, base(c.ptr))[k])
 //@   modifies []$F@{c.ptr}
 
 //@ func ($S).Tan
 //@   requires okF_$S(c) && RIc(a)
 //@   ensures deref(c.ptr) == tan(old(val(a)))
 //@   ensures isa($S, result) && as($S, result) == c
+//@   ensures forall k int :: k != off(c.ptr) ==> row($F, base(c.ptr))[k] == old(row($F, base(c.ptr))[k])
 //@   modifies []$F@{c.ptr}
 
 //@ func ($S).Tanh
 //@   requires okF_$S(c) && RIc(a)
 //@   ensures deref(c.ptr) == tanh(old(val(a)))
 //@   ensures isa($S, result) && as($S, result) == c
+//@   ensures forall k int :: k != off(c.ptr) ==> row($F, base(c.ptr))[k] == old(row($F, base(c.ptr))[k])
 //@   modifies []$F@{c.ptr}
 
 //@ func ($S).Exp
 //@   requires okF_$S(c) && RIc(a)
 //@   ensures deref(c.ptr) == exp(old(val(a)))
 //@   ensures isa($S, result) && as($S, result) == c
+//@   ensures forall k int :: k != off(c.ptr) ==> row($F, base(c.ptr))[k] == old(row($F, base(c.ptr))[k])
 //@   modifies []$F@{c.ptr}
 
 //@ func ($S).Log
@@ -552,6 +560,7 @@ package autodiff
 //@   requires val(a) > 0
 //@   ensures deref(c.ptr) == log(old(val(a)))
 //@   ensures isa($S, result) && as($S, result) == c
+//@   ensures forall k int :: k != off(c.ptr) ==> row($F, base(c.ptr))[k] == old(row($F, base(c.ptr))[k])
 //@   modifies []$F@{c.ptr}
 
 //@ func ($S).Log1p
@@ -559,24 +568,28 @@ package autodiff
 //@   requires val(a) > 0 - 1
 //@   ensures deref(c.ptr) == log1p(old(val(a)))
 //@   ensures isa($S, result) && as($S, result) == c
+//@   ensures forall k int :: k != off(c.ptr) ==> row($F, base(c.ptr))[k] == old(row($F, base(c.ptr))[k])
 //@   modifies []$F@{c.ptr}
 
 //@ func ($S).Erf
 //@   requires okF_$S(c) && RIc(a)
 //@   ensures deref(c.ptr) == erf(old(val(a)))
 //@   ensures isa($S, result) && as($S, result) == c
+//@   ensures forall k int :: k != off(c.ptr) ==> row($F, base(c.ptr))[k] == old(row($F, base(c.ptr))[k])
 //@   modifies []$F@{c.ptr}
 
 //@ func ($S).Erfc
 //@   requires okF_$S(c) && RIc(a)
 //@   ensures deref(c.ptr) == erfc(old(val(a)))
 //@   ensures isa($S, result) && as($S, result) == c
+//@   ensures forall k int :: k != off(c.ptr) ==> row($F, base(c.ptr))[k] == old(row($F, base(c.ptr))[k])
 //@   modifies []$F@{c.ptr}
 
 //@ func ($S).Gamma
 //@   requires okF_$S(c) && RIc(a)
 //@   ensures deref(c.ptr) == gamma(old(val(a)))
 //@   ensures isa($S, result) && as($S, result) == c
+//@   ensures forall k int :: k != off(c.ptr) ==> row($F, base(c.ptr))[k] == old(row($F, base(c.ptr))[k])
 //@   modifies []$F@{c.ptr}
 
 //@ func ($S).Lgamma
@@ -584,24 +597,28 @@ package autodiff
 //@   requires val(a) > 0
 //@   ensures deref(c.ptr) == lgamma(old(val(a)))
 //@   ensures isa($S, result) && as($S, result) == c
+//@   ensures forall k int :: k != off(c.ptr) ==> row($F, base(c.ptr))[k] == old(row($F, base(c.ptr))[k])
 //@   modifies []$F@{c.ptr}
 
 //@ func ($S).Add [also: ($S).ADD]
 //@   requires okF_$S(c) && RIc(a) && RIc(b)
 //@   ensures deref(c.ptr) == (old(val(a)) + old(val(b)))
 //@   ensures isa($S, result) && as($S, result) == c
+//@   ensures forall k int :: k != off(c.ptr) ==> row($F, base(c.ptr))[k] == old(row($F, base(c.ptr))[k])
 //@   modifies []$F@{c.ptr}
 
 //@ func ($S).Sub [also: ($S).SUB]
 //@   requires okF_$S(c) && RIc(a) && RIc(b)
 //@   ensures deref(c.ptr) == (old(val(a)) + ((0 - 1) * old(val(b))))
 //@   ensures isa($S, result) && as($S, result) == c
+//@   ensures forall k int :: k != off(c.ptr) ==> row($F, base(c.ptr))[k] == old(row($F, base(c.ptr))[k])
 //@   modifies []$F@{c.ptr}
 
 //@ func ($S).Mul [also: ($S).MUL]
 //@   requires okF_$S(c) && RIc(a) && RIc(b)
 //@   ensures deref(c.ptr) == (old(val(a)) * old(val(b)))
 //@   ensures isa($S, result) && as($S, result) == c
+//@   ensures forall k int :: k != off(c.ptr) ==> row($F, base(c.ptr))[k] == old(row($F, base(c.ptr))[k])
 //@   modifies []$F@{c.ptr}
 
 //@ func ($S).Div [also: ($S).DIV]
@@ -609,6 +626,7 @@ package autodiff
 //@   requires val(b) != 0
 //@   ensures deref(c.ptr) == ((old(val(a))) / (old(val(b))))
 //@   ensures isa($S, result) && as($S, result) == c
+//@   ensures forall k int :: k != off(c.ptr) ==> row($F, base(c.ptr))[k] == old(row($F, base(c.ptr))[k])
 //@   modifies []$F@{c.ptr}
 
 //@ end
